@@ -68,6 +68,18 @@ def concatenate(fields, target={}, resources=None):
         if len(target['schema']['primaryKey']) == 0:
             del target['schema']['primaryKey']
 
+        # a target field that one of the concatenated resources does not provide is null in its rows
+        selected = [r for r in package.pkg.descriptor['resources'] if matcher.match(r['name'])]
+        for field in target['schema']['fields']:
+            constraints = field.get('constraints')
+            if isinstance(constraints, dict) and constraints.get('required'):
+                if not all(any(field_mapping.get(f['name']) == field['name']
+                               for f in r.get('schema', {}).get('fields', []))
+                           for r in selected):
+                    constraints = dict(constraints)
+                    del constraints['required']
+                    field['constraints'] = constraints
+
         for name in needed_fields:
             target['schema']['fields'].append(dict(
                 name=name, type='string'
